@@ -144,9 +144,31 @@ func TestVerifC01(t *testing.T) {
 		}
 		return fmt.Sprintf("length %d vs %d lines", len(la), len(lb))
 	}
+	// warm-up: one-time initialisations (lazy caches in libraries) iterate maps on this goroutine the
+	// first time an entry is applied; run one history before anything is recorded so that choice
+	// point numbering is stable
+	if sc0 := VerifScenario("services"); sc0 != nil {
+		vRunArmed(sc0.Hist[:len(sc0.Hist)-1], sc0.Hist[len(sc0.Hist)-1], nil, 0)
+	}
+	aligned := func(a, b vC01Run, upto int) bool {
+		if a.prefixN != b.prefixN || len(b.choices) <= upto {
+			return false
+		}
+		for j := 0; j <= upto; j++ {
+			if a.choices[j].Count != b.choices[j].Count || a.choices[j].B != b.choices[j].B {
+				return false
+			}
+		}
+		return true
+	}
 	checkEntry := func(sc string, hist []VEntry, e VEntry) {
 		res.Transitions++
 		base := vRunArmed(hist, e, nil, 0)
+		if again := vRunArmed(hist, e, nil, 0); again.obs != base.obs || len(again.choices) != len(base.choices) {
+			// the default run is not reproducible in this process (should not happen after the warm-up)
+			base = again
+			res.Counters["baseline_rerun"]++
+		}
 		res.Executions++
 		h := sha1.Sum([]byte(base.obs))
 		res.Digests[fmt.Sprintf("%s|%d|%s", sc, len(hist), vKey(e.String()))] = hex.EncodeToString(h[:8])
@@ -178,6 +200,14 @@ func TestVerifC01(t *testing.T) {
 				devs = append(devs, [2]uint64{uint64(ci), uint64(r)})
 				d := vRunArmed(hist, e, map[int]uint64{ci: uint64(r)}, 0)
 				res.Executions++
+				if !aligned(base, d, ci) {
+					// the deviating run did not reach the same choice point: a divergence while replaying a
+					// prefix is a hard error of the harness, never silently accepted
+					res.Counters["misaligned_deviation_runs"]++
+					res.Exhaustive = false
+					res.Note = "HARNESS-NONDETERMINISM: choice points of a deviating run do not line up with the baseline"
+					continue
+				}
 				if d.obs != base.obs {
 					report(sc, hist, e, "result depends on map iteration order ["+cmd+"]",
 						fmt.Sprintf("entry %s: choice point %d (map of %d elements) start position %d instead of 0 changes the result: %s", e.String(), ci-base.prefixN, ch.Count, r, firstDiff(base.obs, d.obs)))
